@@ -435,7 +435,7 @@ func lineOr(ls []string, i int) string {
 	return "<past the end>"
 }
 
-var dmgTexts = []string{"\"", "(", "[", ")", "]", "@", "@@", "=", "==", "|", "*", ";", "!", "  ", "\t", "x", "$", "-", "1.2.3,4", "abc", "é😀", "::", "2024-13-99", " ; ", "include", "account", "P", "0x", ",,", "--5", "\x01", "\x00", "\x00", "\x7f", "\x0c", "\x1b", "\u00a0", "\u2028", "\ufeff", "E9", "()", "[]", "\"\""}
+var dmgTexts = []string{"\"", "(", "[", ")", "]", "@", "@@", "=", "==", "=*", "==* ", " =* 5 EUR", "{150 USD}", "|", "*", ";", "!", "  ", "\t", "x", "$", "-", "1.2.3,4", "abc", "é😀", "::", "2024-13-99", " ; ", "include", "account", "P", "0x", ",,", "--5", "\x01", "\x00", "\x00", "\x7f", "\x0c", "\x1b", "\u00a0", "\u2028", "\ufeff", "E9", "()", "[]", "\"\""}
 
 func genDamage(t *rapid.T, nlines int) []DamageOp {
 	n := rapid.IntRange(1, 3).Draw(t, "nops")
